@@ -88,12 +88,12 @@ def call(f, a):
     return np.array(a[2] if r is None else r)
 
 def fixed_op_cache_key():
-    """second one-line switch of Caches.v (false = OperatorTemplate.cache keyed by name, true = proposed_fix_C13_op_cache_key.diff)"""
+    """second one-line switch of Caches.v (true = repair D90: OperatorTemplate.cache keyed by the definition; false = keyed by name)"""
     txt = open(os.path.join(COQ, "theories", "Caches.v")).read()
     return re.search(r"Definition fixed_op_cache_key : bool := (true|false)\.", txt).group(1) == "true"
 
 def fixed_yaml_copy():
-    """third one-line switch of Caches.v (true = proposed_fix_C13_D28.diff: from_yaml hands out copies of loaded circuits)"""
+    """third one-line switch of Caches.v (true = repair D91: from_yaml hands out copies of loaded circuits)"""
     txt = open(os.path.join(COQ, "theories", "Caches.v")).read()
     return re.search(r"Definition fixed_yaml_copy : bool := (true|false)\.", txt).group(1) == "true"
 
